@@ -12,7 +12,7 @@ FLAGSETS = {
     'asan': dict(cxx='g++', cflags=_COMMON + ['-O1', '-fsanitize=address,undefined', '-fno-sanitize=vptr', '-fno-sanitize-recover=undefined',
                                               '-D_GLIBCXX_ASSERTIONS', '-fno-access-control'],
                  ldflags=['-fsanitize=address,undefined'],
-                 env={'ASAN_OPTIONS': 'detect_leaks=0:abort_on_error=1:detect_stack_use_after_return=1:allocator_may_return_null=1:max_allocation_size_mb=512',
+                 env={'ASAN_OPTIONS': 'detect_leaks=0:abort_on_error=1:detect_stack_use_after_return=0:quarantine_size_mb=64:allocator_may_return_null=1:max_allocation_size_mb=512',
                       'UBSAN_OPTIONS': 'print_stacktrace=1:halt_on_error=1:abort_on_error=1'}),
 }
 
@@ -32,7 +32,9 @@ ENGINES = [
 ]
 MANIFEST_NOTES = ('All checks execute the real implementation compiled from /repo working tree; no separate formal model, so every explored trace is an implementation trace. '
                   'Driver: bin/check <id> --tier quick|thorough. Known/fixed findings: known_findings.json. Seeded breakage used to validate detection: seeded/*/meta.json.')
-NOT_APPLICABLE = []
+# properties without a registered check AT THIS COMMIT (each gets removed from this list by the commit that adds its check)
+_PENDING = 'no check registered at this commit: the harness for this property is still being built (design in DESIGN.md section 4); nothing is claimed for it yet'
+NOT_APPLICABLE = [dict(property_id=p, reason=_PENDING) for p in ('C09', 'C14', 'C15', 'C16', 'C18', 'C20')]
 
 CHECKS['C13'] = dict(engine='xenum', technique='bounded-exhaustive enumeration of all values (2^8, 2^16, 2^32; structured 2^64 subset) against a reference formatter',
     level_text='every value of the enumerated sets is executed through all four function forms and compared with an independent formatter; complete for 8/16/32-bit types (32-bit in the thorough tier)',
@@ -159,3 +161,14 @@ CHECKS['C08'] = dict(title='Evaluating through an argument group equals one hand
     rule='configuration x partition (restricted growth strings) x member creation order x use sequence x spelling; states = (configuration, partition), transitions = Groups::evalArguments calls',
     bound={'quick': 'lines <= 2 uses, abbreviations on', 'thorough': 'lines <= 3 uses, abbreviations on and off'},
     assumptions=['abbreviations are only spelled when they are unambiguous in the merged definition'])
+
+CHECKS['C04'] = dict(title='Argument evaluation is memory-safe for every argument vector and source', engine='xenum',
+    harness=['harness/c04_memsafe.cpp'], flags='asan', lib=True, level='model_checking', deadline={'quick': 300, 'thorough': 2400}, hang_s=30, max_restarts=400,
+    technique='bounded-exhaustive enumeration of argument vectors (raw character alphabet, template-derived tokens, program names) x argument sources, executed under AddressSanitizer/UBSan with per-case crash attribution',
+    level_text='every argv of <= 2 words of <= 3 raw characters (quick: second word <= 2), every line of <= 3 (quick) / <= 4 (thorough) tokens, program names of every length up to 3 and at allocator boundaries, each through 8 source/flag modes (plain, program-argument file absent/present, environment unset/empty/set, argument file, Groups) on a handler with every destination kind',
+    level_note='oracle is the sanitizer (heap/stack/global overflow, use after free, mismatched delete, null dereference, libstdc++ assertions) + outcome type; a crash ends the case it occurs in (the remaining lines of that case are not run, the case is reported)',
+    rule='case = (alphabet family, first word[s]); within a case all continuations x 8 modes; states = argument vectors x modes, transitions = evalArguments calls; non-trivial = cases',
+    bound={'quick': 'raw: 1110 first words x 110 second words; tokens: lines <= 3 of 59 tokens; 69 program names', 'thorough': 'raw: 1110 x 1110, 3 words of <= 2 chars; tokens: lines <= 4 (4th token in plain mode)'},
+    assumptions=['argc >= 1 and argv[argc] == nullptr (what the C runtime guarantees)', 'exit() is interposed: the help arguments are used with "continue after usage"'])
+
+NOT_APPLICABLE = [e for e in NOT_APPLICABLE if e['property_id'] not in CHECKS]
